@@ -1046,6 +1046,11 @@ def eq_dispatch(ex, st, a, b):
                 vx = x.variant if not isinstance(x.variant, int) else bv(x.variant, 64)
                 vy = y.variant if not isinstance(y.variant, int) else bv(y.variant, 64)
                 return vx == vy
+        if not x.fields and not getattr(y, 'fields', [1]) and x.ty == getattr(y, 'ty', None):
+            # payload-free enum of std (Ordering, …): equality of the discriminants
+            vx = x.variant if not isinstance(x.variant, int) else bv(x.variant, 64)
+            vy = y.variant if not isinstance(y.variant, int) else bv(y.variant, 64)
+            return z3.simplify(vx == vy)
     raise Unsupported('PartialEq on %r' % (x,))
 
 
@@ -2518,6 +2523,59 @@ def model(ex, st, c, args):
             if t == 'n':
                 return none()
             return some(Adt('Ordering', z3.If(z3.fpLT(x.t, y.t), bv(-1, 64), z3.If(z3.fpEQ(x.t, y.t), bv(0, 64), bv(1, 64))), []))
+        if isinstance(x, SStr) or isinstance(y, SStr):
+            # lexicographic by bytes = by scalar values (UTF-8 preserves code point order): reuse the string `<` model
+            xs, ys = to_sstr(ex, x), to_sstr(ex, y)
+            lt = str_lt(xs, ys, False)
+            eq = str_eq(xs, ys)
+            o_ = Adt('Ordering', z3.If(lt, bv(-1, 64), z3.If(eq, bv(0, 64), bv(1, 64))), [])
+            return o_ if mm.group(2) == 'cmp' else some(o_)
+        if z3.is_expr(x) and z3.is_bool(x):
+            o_ = Adt('Ordering', z3.If(z3.And(z3.Not(x), y), bv(-1, 64), z3.If(x == y, bv(0, 64), bv(1, 64))), [])
+            return o_ if mm.group(2) == 'cmp' else some(o_)
+    if c.startswith(('std::cmp::Ordering::', 'core::cmp::Ordering::', 'Ordering::')) and args and isinstance(args[0], Adt) and args[0].ty == 'Ordering':
+        v = args[0].variant
+        vt = v if not isinstance(v, int) else bv(v, 64)
+        meth = c.split('::')[-1]
+        tests = {'is_lt': vt == bv(-1, 64), 'is_le': vt != bv(1, 64), 'is_gt': vt == bv(1, 64), 'is_ge': vt != bv(-1, 64), 'is_eq': vt == bv(0, 64), 'is_ne': vt != bv(0, 64)}
+        if meth in tests:
+            return z3.simplify(tests[meth])
+        if meth == 'reverse':
+            return Adt('Ordering', z3.simplify(-vt), [])
+        if meth == 'then':
+            o2 = args[1].variant
+            o2t = o2 if not isinstance(o2, int) else bv(o2, 64)
+            return Adt('Ordering', z3.simplify(z3.If(vt == bv(0, 64), o2t, vt)), [])
+    if re.fullmatch(r'<(std::cmp::|core::cmp::)?Ordering as PartialEq>::(eq|ne)', c):
+        a, b2 = D(args[0]), D(args[1])
+        at = a.variant if not isinstance(a.variant, int) else bv(a.variant, 64)
+        bt = b2.variant if not isinstance(b2.variant, int) else bv(b2.variant, 64)
+        e = at == bt
+        return z3.simplify(e if c.endswith('eq') else z3.Not(e))
+    m128 = re.fullmatch(r'<(i64|i32|u64|usize|u32) as TryFrom<(i128|u128|i64|u64|usize|i32|u32|isize)>>::try_from', c)
+    if m128 and isinstance(args[0], Int):
+        dst, src = m128.group(1), m128.group(2)
+        x = args[0]
+        db = INT_BITS[dst]
+        sb = x.t.size()
+        dsig, ssig = dst[0] == 'i', src[0] == 'i'
+        lo = -(1 << (db - 1)) if dsig else 0
+        hi = (1 << (db - 1)) - 1 if dsig else (1 << db) - 1
+        w = max(sb, db) + 1
+        wide = z3.SignExt(w - sb, x.t) if ssig else z3.ZeroExt(w - sb, x.t)
+        fits = z3.And(wide >= z3.BitVecVal(lo, w), wide <= z3.BitVecVal(hi, w))
+        xt = x.t
+        if sb == 128 and db == 64 and dsig and ssig and z3.is_app(xt) and xt.decl().kind() == z3.Z3_OP_BMUL and xt.num_args() == 2 and \
+                all(ch.decl().kind() == z3.Z3_OP_SIGN_EXT and ch.arg(0).size() == 64 for ch in xt.children()):
+            # (a as i128) * (b as i128) narrowed back to i64: the 128-bit product does not get through the solver; say the same thing with the
+            # signed-multiplication overflow predicates (their agreement with i128 arithmetic is what the Kani harness checked_mul_matches_i128 proves)
+            a_, b_ = xt.arg(0).arg(0), xt.arg(1).arg(0)
+            fits = z3.And(z3.BVMulNoOverflow(a_, b_, True), z3.BVMulNoUnderflow(a_, b_))
+            wide = z3.SignExt(w - 64, a_ * b_)
+        t = B([(fits, 'ok'), (z3.Not(fits), 'err')])
+        if t == 'ok':
+            return ok(Int(z3.Extract(db - 1, 0, wide), dsig))
+        return err(Adt('TryFromIntError', 0, [mkunit()]))
     m = re.fullmatch(r'<i64 as (BitAnd|BitOr|BitXor)(?:<i64>)?>::\w+', c)
     if m:
         x, y = args
